@@ -6,13 +6,13 @@ Local Open Scope N_scope.
 
 (* One struct / variant body in two versions (writer fsW, reader fsR, same encoding e), related by the
    documented-compatible edits body_compat: fields with the same index are the same field (names, declaration
-   order, n/b and the named/tuple dshape are free); a field only the reader knows is optional and — under array
-   encoding — untagged (the complement of class F10); fields only the writer knows are arbitrary.  Then, for
-   every writer value, the reader's derived decoder reads the writer's derived encoding, from any position and
-   with any suffix, as migrate_fields: shared fields equal (skipped fields of nested values defaulted), fields
-   unknown to the writer nil (None), fields unknown to the reader ignored whatever their content, stopping
-   exactly at the end of the body.  Both directions of "add / drop an optional field at a new or gap index, in
-   array or map encoding" are instances (swap the roles).
+   order, n/b and the named/tuple shape are free); a field only the reader knows is optional (its nil() exists —
+   tagged or not, array or map encoding); fields only the writer knows are arbitrary.  Then, for every writer
+   value, the reader's derived decoder reads the writer's derived encoding, from any position and with any
+   suffix, as migrate_fields: shared fields equal (skipped fields of nested values defaulted), fields unknown to
+   the writer nil (None), fields unknown to the reader ignored whatever their content, stopping exactly at the
+   end of the body.  Both directions of "add / drop an optional field at a new or gap index, in array or map
+   encoding" are instances (swap the roles).
    Restriction (hence _partial): the definitions the fields refer to are the same in both versions; their
    contract is C09's (hypothesis on recE/recD/recV, instantiated by gen_encode / gen_decode / default_skipped of
    the common schema through DeriveDecFacts.gen_decode_f_reads).
@@ -29,7 +29,7 @@ Theorem C10_compat_partial : forall (c : cfg) (okty : ty -> Prop),
      flat cs <> [] /\ (ntr d = true -> hd_class (flat cs) = true) /\ reads_f (recD d) (flat cs) (recV d v)) ->
   forall dW dR e sh fsW fsR vsW cs,
   fields_ok dW fsW = true -> fields_ok dR fsR = true -> fields_all okty fsR -> fields_rt ntr fsR = true ->
-  body_compat e fsW fsR ->
+  body_compat fsW fsR ->
   (forall pf z, In pf (sorted_fields fsW) -> (forall q, In q (sorted_fields fsR) -> pf_idx q <> pf_idx pf) ->
      enc_field_fn recE (pf_fld pf) (pf_val vsW pf) = Some z ->
      flat z <> [] /\ skippable c (flat (enc_tag_opt (f_tag (pf_fld pf)) ++ z))) ->
@@ -44,13 +44,31 @@ Theorem C10_compat_leaf_partial : forall (c : cfg)
      flat cs <> [] /\ (ntr d = true -> hd_class (flat cs) = true) /\ reads_f (recD d) (flat cs) (recV d v)) ->
   forall dW dR e sh fsW fsR vsW cs,
   fields_ok dW fsW = true -> fields_ok dR fsR = true -> fields_all leaf_ok fsR -> fields_rt ntr fsR = true ->
-  body_compat e fsW fsR ->
+  body_compat fsW fsR ->
   (forall pf z, In pf (sorted_fields fsW) -> (forall q, In q (sorted_fields fsR) -> pf_idx q <> pf_idx pf) ->
      enc_field_fn recE (pf_fld pf) (pf_val vsW pf) = Some z ->
      flat z <> [] /\ skippable c (flat (enc_tag_opt (f_tag (pf_fld pf)) ++ z))) ->
   enc_fields recE e fsW vsW = Some cs ->
   reads_f (dec_body c recD e sh fsR) (flat cs) (VList (migrate_fields recV fsW vsW fsR)).
 Proof. intro c. exact (fields_compat_reads c leaf_ok (leaf_reads c)). Qed.
+
+(* … and one level up: a whole struct definition in two versions (same encoding and tag; field names, declaration
+   order, n/b and the named/tuple shape free, fields added and dropped as above): the reader's derived decoder of
+   the definition reads the writer's derived encoding of the definition — tag, header and body — as the migrated
+   value.  Same restriction as C10_compat_partial on the nested definitions. *)
+Theorem C10_compat_struct_partial : forall (c : cfg)
+  (recE : nat -> value -> option (list chunk)) (recD : nat -> nat -> M value) (recV : nat -> value -> value) (ntr : nat -> bool),
+  (forall d v cs, recE d v = Some cs ->
+     flat cs <> [] /\ (ntr d = true -> hd_class (flat cs) = true) /\ reads_f (recD d) (flat cs) (recV d v)) ->
+  forall dW dR e tag shW shR fsW fsR vsW cs,
+  def_ok dW (DStruct e tag false shW fsW) = true -> def_ok dR (DStruct e tag false shR fsR) = true ->
+  fields_all leaf_ok fsR -> fields_rt ntr fsR = true -> body_compat fsW fsR ->
+  (forall pf z, In pf (sorted_fields fsW) -> (forall q, In q (sorted_fields fsR) -> pf_idx q <> pf_idx pf) ->
+     enc_field_fn recE (pf_fld pf) (pf_val vsW pf) = Some z ->
+     flat z <> [] /\ skippable c (flat (enc_tag_opt (f_tag (pf_fld pf)) ++ z))) ->
+  enc_def recE (DStruct e tag false shW fsW) (VList vsW) = Some cs ->
+  reads_f (dec_def c recD (DStruct e tag false shR fsR)) (flat cs) (VList (migrate_fields recV fsW vsW fsR)).
+Proof. intro c. exact (struct_compat_reads c leaf_ok (leaf_reads c)). Qed.
 
 (* the skippability hypothesis above follows from C06 (skip consumes one well-formed item) and C08_format *)
 Theorem C10_skippable : forall c,
@@ -65,16 +83,17 @@ Theorem C10_skippable_full : forall t e cs, tag_ok t = true -> flat cs = ser (pr
   Acc.utf8_ok (prefer e) = true -> skippable cfg_full (flat (enc_tag_opt t ++ cs)).
 Proof. exact skippable_full. Qed.
 
-(* Guarantee 4: when the decode function of a field that has the unknown-variant arm fails with UnknownVariant
-   after b1, and the rest of the item (b2) is skippable, the field action succeeds, leaves the slot alone (it
-   resolves to None) and stops right after the item — the sibling fields are read from the right place.
-   For a regular enum b2 is the variant body; for an index_only enum there is no b2 and the handler skips the
-   NEXT item instead (class F9, C10_index_only_refuted). *)
-Theorem C10_unknown_variant_optional : forall c recD f n b1 b2,
-  has_handler f = true -> tag_ok (f_tag f) = true -> skippable c b2 ->
-  (forall fuel r p L, (length ((b1 ++ b2) ++ r) < fuel)%nat -> L < two64 -> p + len (b1 ++ b2) <= L ->
-     dec_field_fn c recD f fuel (mkdst p ((b1 ++ b2) ++ r) L) = (Err (UnknownVariant n), mkdst (p + len b1) (b2 ++ r) L)) ->
-  reads_f (field_action c recD f) (flat (enc_tag_opt (f_tag f)) ++ b1 ++ b2) None.
+(* Guarantee 4: when the decode function of a field that has the unknown-variant arm fails with UnknownVariant —
+   wherever in the field's value b it stopped (s' is arbitrary) — and b is skipped as one item, the field action
+   succeeds, leaves the slot alone (it resolves to None) and stops exactly at the end of b: the handler returns to
+   the first byte of the value before it skips.  So the sibling fields are read from the right place for a regular
+   enum (b = [index, body]) and for an index_only enum (b = the bare index, where the enum decoder has already
+   consumed all of b when it fails) alike. *)
+Theorem C10_unknown_variant_optional : forall c recD f n b,
+  has_handler f = true -> tag_ok (f_tag f) = true -> skippable c b ->
+  (forall fuel r p L, (length (b ++ r) < fuel)%nat -> L < two64 -> p + len b <= L ->
+     exists s', dec_field_fn c recD f fuel (mkdst p (b ++ r) L) = (Err (UnknownVariant n), s')) ->
+  reads_f (field_action c recD f) (flat (enc_tag_opt (f_tag f)) ++ b) None.
 Proof. exact handler_skips. Qed.
 
 (* … and an Option<enum> field passes the enum decoder's UnknownVariant on from where that decoder stopped *)
@@ -100,18 +119,19 @@ Theorem C10_mandatory : forall c recE recD dW dR e sh fsW fsR vsW cs (tgt : pfie
   exists i, dec_body c recD e sh fsR fuel (mkdst p (flat cs ++ r) L) = (Err (MissingValue i), mkdst (p + len (flat cs)) r L).
 Proof. exact dec_fields2_missing. Qed.
 
-(* F9: {x: 1, e: Some(variant 7 of an index_only enum), z: 9} = 83 01 07 09, read by the version without variant 7:
-   end of input instead of {1, None, 9} *)
-Theorem C10_index_only_refuted : schema_ok f9_writer = true /\ schema_ok f9_reader = true /\
+(* The former witness of F9: {x: 1, e: Some(variant 7 of an index_only enum), z: 9} = 83 01 07 09, read by the
+   version without variant 7, is {1, None, 9} *)
+Example C10_index_only_example : schema_ok f9_writer = true /\ schema_ok f9_reader = true /\
   option_map flat (gen_encode f9_writer 1 f9_value) = Some [131; 1; 7; 9] /\
-  gen_decode cfg_full f9_reader 1 (start [131; 1; 7; 9]) = (Err EndOfInput, mkdst 4 [] 4).
-Proof. exact f9_refuted. Qed.
+  gen_decode cfg_full f9_reader 1 (start [131; 1; 7; 9]) = (Ok (VList [VNat 1; VNone; VNat 9]), mkdst 4 [] 4).
+Proof. exact f9_repaired. Qed.
 
-(* F10: {x: 1, z: 3} = 83 01 f6 03 read by the version with #[n(1)] #[cbor(tag(9))] y: Option<u8>: type mismatch on the gap null *)
-Theorem C10_tagged_gap_refuted : schema_ok f10_writer = true /\ schema_ok f10_reader = true /\
+(* The former witness of F10: {x: 1, z: 3} = 83 01 f6 03 read by the version with #[n(1)] #[cbor(tag(9))] y: Option<u8>
+   is {1, None, 3} *)
+Example C10_tagged_gap_example : schema_ok f10_writer = true /\ schema_ok f10_reader = true /\
   option_map flat (gen_encode f10_writer 0 (VList [VNat 1; VNat 3])) = Some [131; 1; 246; 3] /\
-  gen_decode cfg_full f10_reader 0 (start [131; 1; 246; 3]) = (Err (TypeMismatch TNull), mkdst 3 [3] 4).
-Proof. exact f10_refuted. Qed.
+  gen_decode cfg_full f10_reader 0 (start [131; 1; 246; 3]) = (Ok (VList [VNat 1; VNone; VNat 3]), mkdst 4 [] 4).
+Proof. exact f10_repaired. Qed.
 
 (* the documented behaviour on a regular enum: unknown variant 7 with a body -> None, z intact *)
 Example C10_regular_enum_example :
@@ -119,28 +139,27 @@ Example C10_regular_enum_example :
   gen_decode cfg_full rg_reader 1 (start [131; 1; 130; 7; 129; 5; 9]) = (Ok (VList [VNat 1; VNone; VNat 9]), mkdst 7 [] 7).
 Proof. exact rg_example. Qed.
 
-(* body_compat is inhabited by a non-trivial instance: the reader adds an optional field at gap index 1 *)
+(* body_compat is inhabited by a non-trivial instance: the reader adds a tagged optional field at gap index 1 *)
 Example C10_body_compat_example :
   let a := mkfield 0 false None CoDefault false false (FTy (TyU B8)) in
   let b := mkfield 2 true None CoDefault false false (FTy TyStr) in
-  let o := mkfield 1 false None CoDefault true false (FTy (TyOpt (TyU B16))) in
-  body_compat AsArray [a; b] [eraseb b; o; a].
+  let o := mkfield 1 false (Some 9) CoDefault true false (FTy (TyOpt (TyU B16))) in
+  body_compat [a; b] [eraseb b; o; a].
 Proof.
   cbv zeta. split.
   - intros fW fR HW HR _ _ E. cbn [In] in HW, HR.
     destruct HW as [<-|[<-|[]]], HR as [<-|[<-|[<-|[]]]]; try reflexivity; cbn in E; discriminate.
   - intros fR HR _ Hno. cbn [In] in HR. destruct HR as [<-|[<-|[<-|[]]]].
     + exfalso. eapply (Hno _ (or_intror (or_introl eq_refl))); reflexivity.
-    + split; [discriminate|reflexivity].
+    + discriminate.
     + exfalso. eapply (Hno _ (or_introl eq_refl)); reflexivity.
 Qed.
 
 Print Assumptions C10_compat_partial.
 Print Assumptions C10_compat_leaf_partial.
+Print Assumptions C10_compat_struct_partial.
 Print Assumptions C10_skippable.
 Print Assumptions C10_skippable_full.
 Print Assumptions C10_unknown_variant_optional.
 Print Assumptions C10_optional_ref_unknown.
 Print Assumptions C10_mandatory.
-Print Assumptions C10_index_only_refuted.
-Print Assumptions C10_tagged_gap_refuted.
